@@ -63,8 +63,9 @@ func (p *ParserZH) ParseAST(l *syntax.Lexer) (pg *syntax.Program, err error) {
 	pg = ParseProgram(p)
 
 	// ensure there's no remaining token after parsing global block
+	// (the offending token is the one that remains, not the last one that was accepted)
 	if p.peek().Type != TypeEOF {
-		err = p.getInvalidSyntaxCurr()
+		err = p.getInvalidSyntaxPeek()
 	}
 	return
 }
